@@ -2130,11 +2130,26 @@ def check_capture_mode_argument(mir):
                 continue
             n += 1
             arg = mm.group(1)
+            alldefs = {}
+            for b2 in fn['blocks'].values():
+                for st in b2['stmts']:
+                    x = re.match(r'(_\d+) = (.*);$', st)
+                    if x:
+                        alldefs.setdefault(x.group(1), []).append(x.group(2))
             origin = None
             for st in blk['stmts']:
                 x = re.match(re.escape(arg) + r' = (.*);$', st)
                 if x:
                     origin = x.group(1)
+            if origin is None and len(alldefs.get(arg, [])) == 1:
+                origin = alldefs[arg][0]
+            # a mode that was first copied into a local (`let mode = state.auto_escape;`): follow single definitions
+            for _ in range(6):
+                x = origin and re.match(r'(?:move|copy) (_\d+)$', origin)
+                if x and len(alldefs.get(x.group(1), [])) == 1:
+                    origin = alldefs[x.group(1)][0]
+                else:
+                    break
             from_state = bool(origin and re.match(r'copy \(\(\*_\d+\)\.\d+: utils::AutoEscape\)$', origin))
             # is the result used?  (anything other than a drop mentions it later)
             uses = [st for b2 in fn['blocks'].values() for st in b2['stmts'] + [b2['term']]
